@@ -314,7 +314,7 @@ BODIES = {f.__name__: f for f in (body_elements, body_model, body_action, body_a
 
 
 def _run(case):
-    return run_case(BODIES[case["body"]], case["spec"], complex_=False, validate=case.get("validate", False),
+    return run_case(BODIES[case["body"]], case["spec"], complex_=case.get("complex", False), validate=case.get("validate", False),
                     want_sample=case.get("sample", False), seed=case.get("seed", 0), max_paths=64, wall_limit=120)
 
 
@@ -379,6 +379,9 @@ def build_family(tier, seed):
         mb.append(dict(sym=sym, model="number_spinful", site_dependent=False, coordinations=(1, 1)))
         mb.append(dict(sym=sym, model="spin", site_dependent=False, coordinations=(1, 1)))
     groups["models"] = ([dict(body="body_model", spec=c, sample=(i % 10 == 0), seed=seed + i) for i, c in enumerate(mb)], True)
+    # complex coefficients (hopping phases): the imaginary part must survive the builders (also a C20 clause)
+    groups["models-complex-coefficients"] = ([dict(body="body_model", spec=c, complex=True, seed=seed + i) for i, c in enumerate(mb) if c["model"] in ("spinless", "spinful")][::2], False)
+    groups["elements-complex-coefficients"] = ([dict(body="body_elements", spec=c, complex=True, seed=seed + i) for i, c in enumerate(el[::12])], False)
     # (c) action on state tensors
     ac = []
     confs = [
@@ -442,7 +445,7 @@ def run(tier, seed, only=None):
                      "fermi_hubbard_local_array", "fermi_hubbard_spinless_local_array", "fermi_number_operator_*", "fermi_spin_operator_local_array", "utils.from_dense", "tensordot_fermionic"]
     rep.bounds = {"string length": "<=4 (6 thorough)", "modes": "<=4", "sites": "1..3", "state tensors": "every total charge of the listed configurations"}
     rep.trusted.append("Hermitian term sets give Hermitian maps with the exact spectrum: follows from D = D^-1 (similarity), not mechanised")
-    rep.outside = ["strings longer than 6, more than 4 modes / 3 sites", "non-numeric coefficient types", "complex coefficients (build_local_fermionic_dense fills a real buffer: see C20 notes)"]
+    rep.outside = ["strings longer than 6, more than 4 modes / 3 sites", "non-numeric coefficient types", "complex *state* amplitudes in the action group"]
     groups = build_family(tier, seed)
     run_groups(rep, groups, _run, only)
     return rep.finish()
